@@ -413,9 +413,10 @@ def run_impl(case):
         s = _Script(case["seed"])
         setspace = numpy.array(case["cand"], dtype=int)
         op = SubsetRandomSampling(setspace=setspace, replace=case["replace"]) if case["replace"] else SubsetRandomSampling(setspace=setspace)
-        with _patched_random(s):
-            X = op._do(_NVar(case["k"]), case["n"])
-        return {"X": numpy.asarray(X).tolist(), "dtype": str(numpy.asarray(X).dtype), "shape": list(numpy.shape(X)), "log": s.log,
+        g = _Script(case["seed"] + 1)                 # the operator is handed its generator; the global stream must stay untouched
+        with _patched_random(g):
+            X = op._do(_NVar(case["k"]), case["n"], random_state=s)
+        return {"global_draws": len(g.log), "X": numpy.asarray(X).tolist(), "dtype": str(numpy.asarray(X).dtype), "shape": list(numpy.shape(X)), "log": s.log,
                 "setspace_unchanged": setspace.tolist() == case["cand"]}
     if kind == "op_cx":
         from pybrops.opt.algo.pymoo_addon import ReducedExchangeCrossover
@@ -423,9 +424,10 @@ def run_impl(case):
         X = numpy.array([case["A"], case["B"]], dtype=int)
         X0 = X.copy()
         op = ReducedExchangeCrossover()
-        with _patched_random(s):
-            Xp = op._do(_NVar(case["k"]), X)
-        return {"Xp": numpy.asarray(Xp).tolist(), "dtype": str(Xp.dtype), "log": s.log, "input_unchanged": bool(numpy.array_equal(X, X0)),
+        g = _Script(case["seed"] + 1)
+        with _patched_random(g):
+            Xp = op._do(_NVar(case["k"]), X, random_state=s)
+        return {"global_draws": len(g.log), "Xp": numpy.asarray(Xp).tolist(), "dtype": str(Xp.dtype), "log": s.log, "input_unchanged": bool(numpy.array_equal(X, X0)),
                 "n_parents": int(op.n_parents), "n_offsprings": int(op.n_offsprings)}
     if kind == "op_mut":
         from pybrops.opt.algo.pymoo_addon import ReducedExchangeMutation
@@ -434,10 +436,11 @@ def run_impl(case):
         X = numpy.array(case["X"], dtype=int); X0 = X.copy()
         op = ReducedExchangeMutation(setspace=setspace)
         pr = _NVar(X.shape[1])
-        with _patched_random(s):
-            Xm = op._do(pr, X)
+        g = _Script(case["seed"] + 1)
+        with _patched_random(g):
+            Xm = op._do(pr, X, random_state=s)
         pv = op.get_prob_var(pr)
-        return {"Xm": numpy.asarray(Xm).tolist(), "dtype": str(Xm.dtype), "log": s.log, "p": float(pv).hex(),
+        return {"global_draws": len(g.log), "Xm": numpy.asarray(Xm).tolist(), "dtype": str(Xm.dtype), "log": s.log, "p": float(pv).hex(),
                 "input_unchanged": bool(numpy.array_equal(X, X0)), "setspace_unchanged": setspace.tolist() == case["setspace"]}
     if kind == "op_round":
         from pybrops.opt.algo import pymoo_addon as PA
@@ -762,6 +765,8 @@ def pred(case, out):
     if "exc" in out:
         return ["implementation raised %s: %s" % (out["exc"], out["msg"])]
     bad = []
+    if out.get("global_draws"):
+        bad.append("operator handed its own generator (random_state) still drew %d time(s) from the global numpy stream" % out["global_draws"])
     if kind in ("sort", "sd", "ssd", "ga"):
         _monitor(case, out, bad)
     if kind == "ga" and "prob" in case:
